@@ -1,4 +1,5 @@
 import Model.IPAddr
+import Model.RdataTextCal
 /-!
 Token-level pieces of the master-file text codecs used by the record types (C05):
 
@@ -243,6 +244,42 @@ def pyInt (base : Nat) (s : List Nat) : Option (Bool × Nat) :=
   let p := pySign (stripIntSpace s)
   (pyBody base p.2).map fun v => (p.1, v)
 
+/-- hexadecimal digits with single underscores between them (`int(s, 16)` body) -/
+def digitsUS16 : List Nat → Nat → Bool → Option Nat
+  | [], acc, needDigit => if needDigit then none else some acc
+  | c :: cs, acc, needDigit =>
+    match hexDigitVal c with
+    | some v => digitsUS16 cs (acc * 16 + v) false
+    | none => if c = 95 then (if needDigit then none else digitsUS16 cs acc true) else none
+
+/-- `int(s, 16)`: optional sign, optional `0x`/`0X` prefix (one underscore may follow it), hex digits with single `_` -/
+def pyIntHex (s : List Nat) : Option (Bool × Nat) :=
+  let p := pySign (stripIntSpace s)
+  let body : Option Nat :=
+    match p.2 with
+    | 48 :: x :: r =>
+      if x = 120 ∨ x = 88 then
+        match r with
+        | 95 :: r' => digitsUS16 r' 0 true
+        | _ => digitsUS16 r 0 true
+      else digitsUS16 p.2 0 true
+    | _ => digitsUS16 p.2 0 true
+  body.map fun v => (p.1, v)
+
+/-- `dns.rdtypes.util.parse_formatted_hex(text, 4, 4, ":")` (NID node id, L64 locator): 19 characters, four
+4-character chunks read with `int(chunk, 16)`, separated by `:` -/
+def parseFormattedHex4 (t : List Nat) : Option Bytes :=
+  if t.length ≠ 19 then none
+  else
+    let chunk (i : Nat) : Option Bytes :=
+      match pyIntHex ((t.drop (5 * i)).take 4) with
+      | some (neg, v) => if neg ∧ v ≠ 0 then none else some [v / 256 % 256, v % 256]
+      | none => none
+    let sepOk (i : Nat) : Bool := (t.drop (5 * i + 4)).head? == some 58
+    match chunk 0, chunk 1, chunk 2, chunk 3 with
+    | some a, some b, some c, some d => if sepOk 0 && sepOk 1 && sepOk 2 then some (a ++ b ++ c ++ d) else none
+    | _, _, _, _ => none
+
 /-- `Tokenizer.as_int` + range check of `as_uintN`: identifier, unescaped, non-negative, ≤ max -/
 def asUint (base : Nat) (max : Nat) (t : Tok) : Option Nat :=
   if t.kind ≠ .ident then none
@@ -282,6 +319,46 @@ def asTtl (t : Tok) : Option Nat :=
   else match unescapeCP t.val with
     | none => none
     | some v => ttlFromText v
+
+/-! ## RRSIG/SIG times (`dns/rdtypes/rrsigbase.py`) -/
+
+/-- `%0Nd` -/
+def padDec (width n : Nat) : List Nat :=
+  let d := natToDec n
+  List.replicate (width - d.length) 48 ++ d
+
+/-- `posixtime_to_sigtime`: `time.strftime("%Y%m%d%H%M%S", time.gmtime(t))` -/
+def sigtimeToText (t : Nat) : List Nat :=
+  let c := civilFromDays (t / 86400)
+  let r := t % 86400
+  padDec 4 c.1 ++ padDec 2 c.2.1 ++ padDec 2 c.2.2 ++ padDec 2 (r / 3600) ++ padDec 2 (r % 3600 / 60) ++ padDec 2 (r % 60)
+
+/-- `int(slice)` as a signed value -/
+def pyIntSigned (s : List Nat) : Option Int :=
+  match pyInt 10 s with
+  | some (neg, n) => some (if neg then -(n : Int) else (n : Int))
+  | none => none
+
+/-- `calendar.timegm((y, mo, d, h, mi, s, …))`: `datetime.date(y, mo, 1)` must exist; the other fields are plain arithmetic -/
+def timegm (y mo d h mi s : Int) : Option Int :=
+  if y < 1 ∨ y > 9999 ∨ mo < 1 ∨ mo > 12 then none
+  else
+    let days : Int := (daysFromCivilShift y.toNat mo.toNat 1 : Int) - 719468 + d - 1
+    some (((days * 24 + h) * 60 + mi) * 60 + s)
+
+/-- `sigtime_to_posixtime(what)` followed by `_as_uint32` -/
+def sigtimeFromText (w : List Nat) : Option Nat :=
+  let v : Option Int :=
+    if w.length ≤ 10 ∧ !w.isEmpty ∧ w.all isDigit then some (decVal w : Int)
+    else if w.length ≠ 14 then none
+    else
+      match pyIntSigned (w.take 4), pyIntSigned ((w.drop 4).take 2), pyIntSigned ((w.drop 6).take 2),
+        pyIntSigned ((w.drop 8).take 2), pyIntSigned ((w.drop 10).take 2), pyIntSigned ((w.drop 12).take 2) with
+      | some y, some mo, some d, some h, some mi, some s => timegm y mo d h mi s
+      | _, _, _, _, _, _ => none
+  match v with
+  | some x => if 0 ≤ x ∧ x ≤ 4294967295 then some x.toNat else none
+  | none => none
 
 /-! ## chunking -/
 
